@@ -65,12 +65,21 @@ def replay(hist):
                 a = sorted(arg)
                 res = cur.without_labels(a if len(a) > 1 else (a[0] if k % 2 else a))
             elif op == "add_label":
-                res = cur.add_label(arg[0], sorted(arg[1]))
+                # the indices in every legal form: a sorted list, an index array counting from the end (numpy's negative indices),
+                # an unsorted list
+                ii = sorted(arg[1])
+                npts = cur.n_points
+                form = k % 3
+                if form == 1 and all(i < npts for i in ii):
+                    ii = np.array([i - npts for i in ii])
+                elif form == 2:
+                    ii = list(reversed(ii))
+                res = cur.add_label(arg[0], ii)
             elif op == "remove_label":
                 res = cur.remove_label(arg)
             elif op == "get_label":
                 res = cur.get_label(arg)
-        except (ValueError, KeyError) as e:
+        except (ValueError, KeyError, IndexError) as e:
             err = type(e).__name__
         except Exception as e:
             from harness.core import from_library
@@ -125,7 +134,23 @@ def labellers():
     return out
 
 
-def labeller_event(name, f, n_in):
+def _feeds():
+    """what every labeller returns for its canonical input, by (n_points, n_dims): results of one labeller are legal inputs of another"""
+    from menpo.shape import PointCloud
+
+    out = {}
+    for name, f, n_in in labellers():
+        d = 3 if "3d" in name.lower() or "bu3dfe" in name else 2
+        P = np.array([[float(3 * i), float(50 + 11 * i)] + ([float(-2 * i)] if d == 3 else []) for i in range(n_in)])
+        try:
+            r = f(PointCloud(P))
+        except Exception:
+            continue
+        out.setdefault((r.n_points, d), []).append((name, r))
+    return out
+
+
+def labeller_event(name, f, n_in, feeds=None):
     """record what labeller f does to a tagged point set, for Trace_Labels"""
     import menpo.transform as mt
     from collections import OrderedDict
@@ -170,6 +195,38 @@ def labeller_event(name, f, n_in):
         elif hasattr(res, "labels") and (r.labels != res.labels or any(
                 not np.array_equal(r._labels_to_masks[l], res._labels_to_masks[l]) for l in res.labels)):
             same = False
+    # ... and so does every other point-carrying class (a mesh whose triangles leave vertices unused, graphs, a tree), and the
+    # result of any other labeller that has the right number of points: only the points count
+    from menpo.shape import PointDirectedGraph, PointTree, PointUndirectedGraph, TriMesh
+
+    others = []
+    if n_in >= 4:
+        others.append(("TriMesh", TriMesh(P.copy(), trilist=np.array([[0, 1, 2], [1, 2, 3]]))))
+        others.append(("PointUndirectedGraph", PointUndirectedGraph.init_from_edges(P.copy(), np.array([[0, 1], [2, 3]]))))
+        others.append(("PointDirectedGraph", PointDirectedGraph.init_from_edges(P.copy(), np.array([[1, 0], [2, 3]]))))
+        others.append(("PointTree", PointTree.init_from_edges(P.copy(), np.array([[i, i + 1] for i in range(n_in - 1)]), 0)))
+    for tag, obj in others:
+        try:
+            r = f(obj)
+        except Exception as e:
+            same = False
+            ev["notes"].append("%s input: %s" % (tag, type(e).__name__))
+            continue
+        if type(r) is not type(res) or not np.array_equal(r.points, out_pts):
+            same = False
+            ev["notes"].append("%s input gives another result" % tag)
+    for other, obj in (feeds or {}).get((n_in, d), []):
+        try:
+            r = f(obj)
+            w = f(PointCloud(obj.points.copy()))
+        except Exception as e:
+            same = False
+            ev["notes"].append("result of %s as input: %s" % (other, type(e).__name__))
+            continue
+        if type(r) is not type(w) or not np.array_equal(r.points, w.points) or (
+                hasattr(w, "labels") and (r.labels != w.labels or any(not np.array_equal(r._labels_to_masks[l], w._labels_to_masks[l]) for l in w.labels))):
+            same = False
+            ev["notes"].append("result of %s as input gives another result than its bare points" % other)
     ev["same_for_all_input_kinds"] = same
     # commutes with a transform of the input
     T = mt.Affine(np.eye(d + 1) + np.triu(np.full((d + 1, d + 1), 0.25), 1))
@@ -205,7 +262,11 @@ def main(argv):
     for h in behs:
         obs, bad = replay(h)
         out.append({"obs": obs, "bad": bad})
-    evs = [labeller_event(*x) for x in labellers()] if len(argv) > 3 and argv[3] == "labellers" else []
+    if len(argv) > 3 and argv[3] == "labellers":
+        feeds = _feeds()
+        evs = [labeller_event(*x, feeds=feeds) for x in labellers()]
+    else:
+        evs = []
     with open(argv[2], "w") as f:
         json.dump({"histories": out, "labellers": evs}, f, sort_keys=False)
 
